@@ -42,6 +42,11 @@ GUARDS = [
     ("leafEmpty", "PM.Family.leafEmptyB {S}"),
     ("textTy", "PM.Family.textTyB {S}"),
 ]
+# guards outside the bundle that hold of the whole family (added after the bundle was fixed)
+MORE_GUARDS = [
+    ("labelsOK", "{S}.labelsOKB"),        # every automaton edge is labelled with a node type of the schema (C11 `fit_emits_wf`)
+    ("textStableC", "textStableC {S}"),   # Bool form of C01's `TextStable` (C11 `coherent_invariant`, C12)
+]
 # guards outside the bundle: they hold of a part of the family only
 EXTRA_GUARDS = [
     ("textStable", "textStableB {S}"),   # `FromDom.TextStable` (C19 `parse_valid`): fails where a textblock requires content
@@ -273,9 +278,9 @@ def render(items):
     fam_items = [it for it in items if it[2]]
     dom_items = [it for it in fam_items if "textStable" not in EXPECT_FALSE.get(it[0], set())]
     # one module per guard: a check builds (and is broken by) only the guards its theorems use
-    for field, term in GUARDS + EXTRA_GUARDS:
+    for field, term in GUARDS + MORE_GUARDS + EXTRA_GUARDS:
         Field = field[0].upper() + field[1:]
-        lg = [HEADER.rstrip("\n"), "import Gen.Schemas", "import Props.Family", "namespace PM.Gen.Guards",
+        lg = [HEADER.rstrip("\n"), "import Gen.Schemas", "import Props.Family", "import PM.Structure2", "namespace PM.Gen.Guards",
               "open PM PM.FromDom PM.Gen.Schemas", ""]
         for name, ident, fam, sd, dump in items:
             lg.append("theorem %s_%s : %s = %s := by decide +kernel" % (
@@ -329,7 +334,7 @@ def render(items):
     lp += ["  · exact ⟨Parsers.%s_rulesOk, by simp [familySchemas, Parsers.p%s]⟩" % (lname(it[1]), it[1]) for it in par_items]
     lp += ["", "end PM.Gen"]
     files["Parsers.lean"] = "\n".join(lp) + "\n"
-    lf = [HEADER.rstrip("\n")] + ["import Gen.Guards.%s" % (f[0].upper() + f[1:]) for f, _ in GUARDS + EXTRA_GUARDS] + [
+    lf = [HEADER.rstrip("\n")] + ["import Gen.Guards.%s" % (f[0].upper() + f[1:]) for f, _ in GUARDS + MORE_GUARDS + EXTRA_GUARDS] + [
         "namespace PM.Gen", "open PM PM.Gen.Schemas", ""]
     for name, ident, fam, sd, dump in items:
         if not any(f in EXPECT_FALSE.get(name, set()) for f, _ in GUARDS):
@@ -401,7 +406,7 @@ def gen_theorems(items, builds, parsers=False, guards=None):
     """fully qualified names of the generated theorems a check audits; `guards` = the guard fields whose modules the
     check builds (None = all, with the bundle)"""
     names = []
-    for f, _ in GUARDS + EXTRA_GUARDS:
+    for f, _ in GUARDS + MORE_GUARDS + EXTRA_GUARDS:
         if guards is None or f in guards:
             names += ["PM.Gen.Guards.%s_%s" % (lname(it[1]), f) for it in items] + ["PM.Gen.family_" + f]
     names.append("PM.Gen.domFamily_sub")
@@ -434,7 +439,7 @@ def guard_table(items, guards=None):
     out = {}
     for name, ident, fam, sd, dump in items:
         bad = EXPECT_FALSE.get(name, set())
-        out[name] = {"family": fam, "guards": {f: f not in bad for f, _ in GUARDS + EXTRA_GUARDS if guards is None or f in guards}}
+        out[name] = {"family": fam, "guards": {f: f not in bad for f, _ in GUARDS + MORE_GUARDS + EXTRA_GUARDS if guards is None or f in guards}}
     return out
 
 
